@@ -22,7 +22,8 @@ Definition facts_ok (F : facts) : bool :=
   bound_is (f_uint16 F) 0 65535 && bound_is (f_uint32 F) 0 4294967295 && bound_is (f_boolean F) 0 1
   && f_bytes_isinstance F && f_str_decodes_bytes F && digest_len_ok F
   && f_sa_guard_none F && f_sa_convert_before_store F && f_tl_convert F && f_dt_final_utc F
-  && f_uint_integral F && negb (f_uint_keeps_arg F) && f_bool_integral F && negb (f_digest_else_empty F).
+  && f_uint_integral F && negb (f_uint_keeps_arg F) && f_bool_integral F && negb (f_digest_else_empty F)
+  && f_grouped_delegates F.
 
 (* the facts of the code before the three repairs (used to show that each repaired test is load-bearing) *)
 Definition without_uint_fix (F : facts) : facts :=
@@ -31,21 +32,24 @@ Definition without_uint_fix (F : facts) : facts :=
      f_str_decodes_bytes := f_str_decodes_bytes F; f_digest_len := f_digest_len F;
      f_digest_else_empty := f_digest_else_empty F; f_sa_guard_none := f_sa_guard_none F;
      f_sa_convert_before_store := f_sa_convert_before_store F; f_tl_convert := f_tl_convert F;
-     f_tl_falsy_empty := f_tl_falsy_empty F; f_dt_arg_utc := f_dt_arg_utc F; f_dt_final_utc := f_dt_final_utc F |}.
+     f_tl_falsy_empty := f_tl_falsy_empty F; f_dt_arg_utc := f_dt_arg_utc F; f_dt_final_utc := f_dt_final_utc F;
+     f_grouped_delegates := f_grouped_delegates F |}.
 Definition without_boolean_fix (F : facts) : facts :=
   {| f_uint16 := f_uint16 F; f_uint32 := f_uint32 F; f_boolean := f_boolean F; f_uint_integral := f_uint_integral F;
      f_bool_integral := false; f_uint_keeps_arg := f_uint_keeps_arg F; f_bytes_isinstance := f_bytes_isinstance F;
      f_str_decodes_bytes := f_str_decodes_bytes F; f_digest_len := f_digest_len F;
      f_digest_else_empty := f_digest_else_empty F; f_sa_guard_none := f_sa_guard_none F;
      f_sa_convert_before_store := f_sa_convert_before_store F; f_tl_convert := f_tl_convert F;
-     f_tl_falsy_empty := f_tl_falsy_empty F; f_dt_arg_utc := f_dt_arg_utc F; f_dt_final_utc := f_dt_final_utc F |}.
+     f_tl_falsy_empty := f_tl_falsy_empty F; f_dt_arg_utc := f_dt_arg_utc F; f_dt_final_utc := f_dt_final_utc F;
+     f_grouped_delegates := f_grouped_delegates F |}.
 Definition without_digest_fix (F : facts) : facts :=
   {| f_uint16 := f_uint16 F; f_uint32 := f_uint32 F; f_boolean := f_boolean F; f_uint_integral := f_uint_integral F;
      f_bool_integral := f_bool_integral F; f_uint_keeps_arg := f_uint_keeps_arg F; f_bytes_isinstance := f_bytes_isinstance F;
      f_str_decodes_bytes := f_str_decodes_bytes F; f_digest_len := f_digest_len F;
      f_digest_else_empty := true; f_sa_guard_none := f_sa_guard_none F;
      f_sa_convert_before_store := f_sa_convert_before_store F; f_tl_convert := f_tl_convert F;
-     f_tl_falsy_empty := f_tl_falsy_empty F; f_dt_arg_utc := f_dt_arg_utc F; f_dt_final_utc := f_dt_final_utc F |}.
+     f_tl_falsy_empty := f_tl_falsy_empty F; f_dt_arg_utc := f_dt_arg_utc F; f_dt_final_utc := f_dt_final_utc F;
+     f_grouped_delegates := f_grouped_delegates F |}.
 
 Definition is_container (v : pv) : bool := match v with PList _ | PTuple _ | PDict _ => true | _ => false end.
 
@@ -79,7 +83,7 @@ Fixpoint args_ok (ts : list ftype) (args : list pv) : bool :=
 
 Definition op_ok (ts : list ftype) (o : op) : bool :=
   match o with
-  | OSet i v => match nth_error ts i with Some t => arg_ok t v | None => true end
+  | OSet i v | OSetGrouped i v => match nth_error ts i with Some t => arg_ok t v | None => true end
   | OConstruct args => args_ok ts args
   | OReplace kvs => forallb (fun kv => match nth_error ts (fst kv) with Some t => arg_ok t (snd kv) | None => true end) kvs
   end.
@@ -102,7 +106,8 @@ Section PvInd.
   Hypothesis HPath : forall w t, P (PPath w t).
   Hypothesis HRec : forall i, P (PRecord i).
   Hypothesis HOther : forall i, P (POther i).
-  Hypothesis HTyped : forall c p, P p -> P (PTyped c p).
+  Definition elems_P (p : pv) : Prop := match p with PList l | PTuple l => Forall P l | _ => True end.
+  Hypothesis HTyped : forall c p, P p -> elems_P p -> P (PTyped c p).
 
   Fixpoint pv_ind2 (v : pv) : P v :=
     match v with
@@ -118,7 +123,15 @@ Section PvInd.
                                  | kv :: r => Forall_cons _ (pv_ind2 (fst kv)) (go r)
                                  end) kvs)
     | PDatetime w o => HDt w o | PPath w t => HPath w t | PRecord i => HRec i | POther i => HOther i
-    | PTyped c p => HTyped c p (pv_ind2 p)
+    | PTyped c p =>
+        HTyped c p (pv_ind2 p)
+          (match p as p0 return elems_P p0 with
+           | PList l => (fix go (l : list pv) : Forall P l :=
+                           match l with [] => Forall_nil _ | x :: r => Forall_cons _ (pv_ind2 x) (go r) end) l
+           | PTuple l => (fix go (l : list pv) : Forall P l :=
+                            match l with [] => Forall_nil _ | x :: r => Forall_cons _ (pv_ind2 x) (go r) end) l
+           | _ => I
+           end)
     end.
 End PvInd.
 
@@ -181,7 +194,7 @@ Lemma facts_ok_inv F : facts_ok F = true ->
   bound_is (f_boolean F) 0 1 = true /\ f_bytes_isinstance F = true /\ f_str_decodes_bytes F = true /\
   digest_len_ok F = true /\ f_sa_guard_none F = true /\ f_sa_convert_before_store F = true /\
   f_tl_convert F = true /\ f_dt_final_utc F = true /\ f_uint_integral F = true /\ f_uint_keeps_arg F = false /\
-  f_bool_integral F = true /\ f_digest_else_empty F = false.
+  f_bool_integral F = true /\ f_digest_else_empty F = false /\ f_grouped_delegates F = true.
 Proof.
   unfold facts_ok. intros H.
   repeat (apply andb_prop in H; destruct H as [H ?]).
@@ -226,6 +239,7 @@ Lemma F_uint_int : f_uint_integral F = true.    Proof. apply (facts_ok_inv F HF)
 Lemma F_keeps : f_uint_keeps_arg F = false.     Proof. apply (facts_ok_inv F HF). Qed.
 Lemma F_bool_int : f_bool_integral F = true.    Proof. apply (facts_ok_inv F HF). Qed.
 Lemma F_digest_else : f_digest_else_empty F = false. Proof. apply (facts_ok_inv F HF). Qed.
+Lemma F_grouped : f_grouped_delegates F = true. Proof. apply (facts_ok_inv F HF). Qed.
 
 (* ---- unsigned integers and booleans ---- *)
 
@@ -517,6 +531,34 @@ Proof.
   rewrite (coerce_flat_sound _ _ _ Ex He Hx). apply IH. exact El.
 Qed.
 
+Lemma typed_elems_sound (e e' : ftype) (l : list pv) (ss : list sval) :
+  ftype_eqb e TRecord = false -> e' <> TRecord ->
+  Forall (fun x => forall t s, cand_ok t x = true -> coerce F E t x = Ok s -> has_type t s = true) l ->
+  forallb (cand_ok e') l = true ->
+  Forall2 (fun x s =>
+             (if instance_of e' e || ftype_eqb e TDynamic then coerce F E e' x
+              else match coerce F E e' x with
+                   | Raise e1 => Raise e1
+                   | Ok s1 => match lower s1 with
+                              | Some low => coerce_cross F E e (PTyped e' x) low
+                              | None => Raise ETypeError
+                              end
+                   end) = Ok s) l ss ->
+  forallb (has_type e) ss = true.
+Proof.
+  intros He He' HI Hc H2. induction H2 as [|x y l ss Hxy _ IH]; [reflexivity|].
+  cbn in Hc. apply andb_prop in Hc. destruct Hc as [Hcx Hcl].
+  pose proof (Forall_inv HI) as Hx. pose proof (Forall_inv_tail HI) as Hl.
+  cbn. rewrite (IH Hl Hcl), andb_true_r.
+  destruct (instance_of e' e || ftype_eqb e TDynamic) eqn:Ee.
+  - pose proof (Hx _ _ Hcx Hxy) as Hty. apply orb_prop in Ee. destruct Ee as [Ee|Ee].
+    + apply (instance_of_has_type _ _ _ Ee Hty).
+    + apply ftype_eqb_eq in Ee. subst e. cbn. rewrite (has_type_not_raw _ _ Hty He'). reflexivity.
+  - destruct (coerce F E e' x) as [s1|]; [|discriminate].
+    destruct (lower s1) as [low|] eqn:El; [|discriminate].
+    apply (coerce_cross_sound e (PTyped e' x) low y (lower_plain _ _ El) He Hxy).
+Qed.
+
 Theorem coerce_sound : forall v ft sv, cand_ok ft v = true -> coerce F E ft v = Ok sv -> has_type ft sv = true.
 Proof.
   induction v using pv_ind2; intros ft sv Hc Hco.
@@ -568,8 +610,8 @@ Proof.
   - rewrite coerce_plain in Hco by reflexivity. scalar_or_dyn ft Hc Hco. tl_trivial Hco.
   - rewrite coerce_plain in Hco by reflexivity. scalar_or_dyn ft Hc Hco. tl_trivial Hco.
   - (* an instance of a field-type class *)
-    cbn [coerce] in Hco. cbn [cand_ok] in Hc. apply andb_prop in Hc. destruct Hc as [Hc Hnr].
-    apply andb_prop in Hc. destruct Hc as [Hc Hr]. apply negb_true_iff in Hnr.
+    cbn [coerce] in Hco. cbn [cand_ok] in Hc. apply andb_prop in Hc. destruct Hc as [Hc Hx].
+    apply andb_prop in Hc. destruct Hc as [Hc Hnt]. apply andb_prop in Hc. destruct Hc as [Hc Hnc].
     destruct (instance_of c ft || ftype_eqb ft TDynamic) eqn:Ei.
     + pose proof (IHv _ _ Hc Hco) as Hty.
       apply orb_prop in Ei. destruct Ei as [Ei|Ei].
@@ -577,10 +619,32 @@ Proof.
       * apply ftype_eqb_eq in Ei. subst ft. cbn.
         rewrite (has_type_not_raw _ _ Hty); [reflexivity|].
         intros ->. discriminate.
-    + (* an instance of another class: converted from the builtin value it extends *)
-      destruct (coerce F E c v) as [s0|] eqn:E0; [|discriminate].
-      destruct (lower s0) as [low|] eqn:El; [|discriminate].
-      apply (coerce_cross_sound _ _ _ _ (lower_plain _ _ El) Hnr Hco).
+    + destruct (coerce F E c v) as [s0|] eqn:E0; [|discriminate].
+      assert (Hdefault : (match lower s0 with Some low => coerce_cross F E ft (PTyped c v) low | None => Raise ETypeError end) = Ok sv ->
+                         has_type ft sv = true).
+      { intros Hd. destruct (lower s0) as [low|] eqn:El; [|discriminate].
+        apply (coerce_cross_sound ft (PTyped c v) low sv (lower_plain _ _ El)); [|exact Hd].
+        destruct ft; try reflexivity. discriminate Hnt. }
+      destruct ft as [| | | | | | | | | | | | | | | | | |e]; try (apply Hdefault; exact Hco).
+      destruct c as [| | | | | | | | | | | | | | | | | |e']; try (apply Hdefault; exact Hco).
+      * (* a stringlist handed to T[] *)
+        destruct v as [| | | | | |l|l| | | | | |]; try (apply Hdefault; exact Hco);
+          (destruct (f_tl_falsy_empty F && is_nil l); [inversion Hco; reflexivity|];
+           rewrite F_tl in Hco; unfold bind in Hco; destruct (map_res _ l) as [ss|] eqn:Em; [|discriminate]; inversion Hco; subst;
+           apply map_res_Forall2 in Em; cbn [has_type]; apply (list_elems_sound _ _ _ H Hx Em)).
+      * (* a dictlist handed to T[] *)
+        destruct v as [| | | | | |l|l| | | | | |]; try (apply Hdefault; exact Hco);
+          (destruct (f_tl_falsy_empty F && is_nil l); [inversion Hco; reflexivity|];
+           rewrite F_tl in Hco; unfold bind in Hco; destruct (map_res _ l) as [ss|] eqn:Em; [|discriminate]; inversion Hco; subst;
+           apply map_res_Forall2 in Em; cbn [has_type]; apply (list_elems_sound _ _ _ H Hx Em)).
+      * (* a T'[] list handed to T[] *)
+        assert (He : ftype_eqb e TRecord = false) by (destruct e; try reflexivity; discriminate Hnt).
+        assert (He' : e' <> TRecord) by (intros ->; discriminate Hnc).
+        destruct v as [| | | | | |l|l| | | | | |]; try (apply Hdefault; exact Hco);
+          (destruct (f_tl_falsy_empty F && is_nil l); [inversion Hco; reflexivity|];
+           rewrite F_tl in Hco; unfold bind in Hco; destruct (map_res _ l) as [ss|] eqn:Em; [|discriminate]; inversion Hco; subst;
+           apply map_res_Forall2 in Em; cbn [has_type]; cbn [cand_ok] in Hc;
+           apply (typed_elems_sound e e' l ss He He' H Hc Em)).
 Qed.
 
 (* ---- records ---- *)
@@ -681,8 +745,9 @@ Qed.
 
 Lemma step_types kw r o : types (fst (step F E kw r o)) = types r.
 Proof.
-  destruct o as [i v|args|kvs]; cbn [step].
+  destruct o as [i v|i v|args|kvs]; cbn [step].
   - apply setattr_types.
+  - rewrite F_grouped. apply setattr_types.
   - destruct (construct F E kw (types r) args) as [r'|] eqn:Ec; [|reflexivity]. apply (construct_sound _ _ _ _ Ec).
   - unfold replace. destruct (replace_from F E kw 0 r kvs) as [r'|] eqn:Er; [|reflexivity].
     destruct (forallb _ kvs); [|reflexivity]. apply (replace_from_sound _ _ _ _ _ Er).
@@ -690,8 +755,9 @@ Qed.
 
 Lemma step_wt kw r o : op_ok (types r) o = true -> well_typed r = true -> well_typed (fst (step F E kw r o)) = true.
 Proof.
-  intros Ho Hw. destruct o as [i v|args|kvs]; cbn [step].
+  intros Ho Hw. destruct o as [i v|i v|args|kvs]; cbn [step].
   - apply setattr_wt; [exact Hw|]. intros t Hn. cbn in Ho. rewrite Hn in Ho. exact Ho.
+  - rewrite F_grouped. apply setattr_wt; [exact Hw|]. intros t Hn. cbn in Ho. rewrite Hn in Ho. exact Ho.
   - destruct (construct F E kw (types r) args) as [r'|] eqn:Ec; [|exact Hw]. apply (construct_sound _ _ _ _ Ec). exact Ho.
   - unfold replace. destruct (replace_from F E kw 0 r kvs) as [r'|] eqn:Er; [|exact Hw].
     destruct (forallb _ kvs); [|exact Hw]. cbn.
@@ -702,11 +768,16 @@ Qed.
 
 Theorem step_noop kw r o r' e : step F E kw r o = (r', Raised e) -> r' = r.
 Proof.
-  destruct o as [i v|args|kvs]; cbn [step].
+  destruct o as [i v|i v|args|kvs]; cbn [step].
   - apply setattr_noop.
+  - rewrite F_grouped. apply setattr_noop.
   - destruct (construct F E kw (types r) args); intros H; inversion H. reflexivity.
   - destruct (replace F E kw r kvs); intros H; inversion H. reflexivity.
 Qed.
+
+(* every mutation path funnels into the coercing setter: assignment through a grouped view IS member assignment *)
+Lemma step_grouped kw r i v : step F E kw r (OSetGrouped i v) = step F E kw r (OSet i v).
+Proof. cbn [step]. rewrite F_grouped. reflexivity. Qed.
 
 Theorem run_ops_invariant kw : forall ops r, forallb (op_ok (types r)) ops = true -> well_typed r = true ->
   well_typed (fst (run_ops F E kw r ops)) = true.
